@@ -160,6 +160,7 @@ pub fn run(ctx: &RunCtx) -> i32 {
     for (t, m) in [
         (Transport::Unreliable { rto_ms: 100, gran_ms: 1, rm: 2, rc: 3 }, Mech::None),
         (Transport::Unreliable { rto_ms: 100, gran_ms: 1, rm: 16, rc: 2 }, Mech::ShortTerm(Some(false))),
+        (Transport::Unreliable { rto_ms: 37, gran_ms: 1, rm: 3, rc: 6 }, Mech::None),
         (Transport::Reliable { timeout_ms: 300 }, Mech::None),
         (Transport::Reliable { timeout_ms: 300 }, Mech::ShortTerm(None)),
     ] {
